@@ -81,6 +81,7 @@ def explore(task):
             velocity = [(v * sense) if d == direction else 0.0 for d in range(dim)]
             stamp, stamp_val = jf.sym_time(ex, "t0", hi=8)
             branch = active_branch(active, velocity, stamp)
+            branch_pos0 = list(branch.value.position)
             occ.update([branch])
             p0 = mirror(ex, occ, cells, units, active, cap, charge_filter)
             ex.oblige("mirror-after-initialize-and-first-update", z3.BoolVal(not p0), problems=str(p0))
@@ -111,8 +112,10 @@ def explore(task):
                           got=str(occ._active_cell.identifier), want=str(want_cell.identifier))
                 # the unit moved continuously: boundary coordinate == old coordinate + v (t - t0) modulo the box
                 dt = jf.time_value(t_event) - stamp_val
-                for d in range(dim):
-                    want = L(units[active_index].position[d])
+                x0 = L(branch_pos0[direction])
+                ex.oblige("boundary-position-is-the-old-position-advanced-by-velocity-times-elapsed-time",
+                          jf.zmod_eq(L(moved.position[direction]), x0 + L(velocity[direction]) * dt,
+                                     symx.realval(lengths[direction])))
                 ex.oblige("only-the-direction-of-motion-changed",
                           z3.And(*[L(moved.position[d]) == L(branch.value.position[d]) for d in range(dim)
                                    if d != direction]))
@@ -157,11 +160,40 @@ def explore(task):
 
 
 def replay_occ(model, q):
+    """Native replay (floats).  For a boundary event whose direction/sense is not recorded (the path ended in an
+    exception) every direction and sense is tried."""
+    info = q.info
+    event = info["event"]
+    log = eval(info.get("log") or "None")
+    if event == "boundary" and not log:
+        dim = len(info["lengths"])
+        last = None
+        for d in range(dim):
+            for sense in (1.0, -1.0):
+                try:
+                    last = _replay_occ(model, q, ["boundary", (d, sense)])
+                except Exception as exc:  # noqa
+                    return {"reproduced": True,
+                            "what": "grid %s/%s: cell-boundary event in direction %d (sense %+d) raised %r natively"
+                                    % (info["lengths"], info["per_side"], d, sense, exc),
+                            "data": {"kind": "occ", "info": {k: v for k, v in info.items() if k != "replay"},
+                                     "model": {k: str(v) for k, v in model.items()}}}
+                if last["reproduced"]:
+                    return last
+        return last
+    try:
+        return _replay_occ(model, q, log or [event])
+    except Exception as exc:  # noqa
+        return {"reproduced": True, "what": "native replay of %s raised %r" % (log or [event], exc),
+                "data": {"kind": "occ", "info": {k: v for k, v in info.items() if k != "replay"},
+                         "model": {k: str(v) for k, v in model.items()}}}
+
+
+def _replay_occ(model, q, log):
     from fractions import Fraction as F
     info = q.info
     lengths, per_side, layers, n, cap = info["lengths"], info["per_side"], info["layers"], info["n"], info["cap"]
     cf, ai, event = info["charge_filter"], info["active"], info["event"]
-    log = eval(info.get("log") or "None") or [event]
     dim = len(lengths)
     try:
         cells = make_grid(lengths, per_side, layers)
